@@ -1,3 +1,246 @@
-import Babylon.Core.Proto
-/-! Line-protocol driver for property C09 (stub). -/
-def main : IO Unit := Babylon.Core.runLines (fun (s : Unit) _ => (s, "bad-op")) ()
+import Babylon.Core.Trace
+import Babylon.Epoch.Model
+/-! Lock-step replay driver for property C09 (Epoch).
+stdin: runs `RUN <seed> mode=acc|tls bs=<n> n0=<n> nb0=<n> tbl0=<ptr> …` / VRT trace lines / `END`;
+stdout per run: `ok <n>` | `diverge <why>`.
+
+Every atomic trace line of a thread that is inside an Epoch call must be exactly the model thread's
+next action (kind, location, memory order, values); loads read the latest message (VRT executes
+sequentially consistent interleavings) while the model's view bookkeeping runs along, so the
+client-contract checks that need views (Accessor hand-over ordered by release/acquire, reclamation
+only of epochs the model marks reclaimable) are decided on the real execution.  Atomic lines of a
+thread outside any call are client accesses (`cl+k`).  Thread creation / join are release/acquire
+transfers on reserved client cells. -/
+open Babylon.Core Babylon.Core.MemView Babylon.Epoch
+
+structure RState where
+  c : Cfg
+  o : Orders
+  s : State
+  ptrs : List (Nat × Nat)      -- block-table pointer value ↦ number of blocks
+  pend : List (Nat × Nat)      -- thread inside allocate() ↦ the id the implementation is going to return
+
+def hdrNat (hdr : List String) (key : String) (dflt : Nat) : Nat :=
+  (hdr.filterMap (fun h => if h.startsWith (key ++ "=") then (h.drop (key.length + 1)).toNat? else none)).head?.getD dflt
+
+def initR (hdr : List String) : RState :=
+  let tls := hdr.contains "mode=tls"
+  let c : Cfg := { tls := tls, bs := hdrNat hdr "bs" 1024, n0 := hdrNat hdr "n0" 0, nb0 := hdrNat hdr "nb0" 0 }
+  { c := c, o := genOrders, s := State.init c, ptrs := [(hdrNat hdr "tbl0" 0, c.nb0)], pend := [] }
+
+def showPc (p : Pc) : String := reprStr p
+
+def spawnCell (child : Nat) : Nat := 100000 + child
+def exitCell (child : Nat) : Nat := 200000 + child
+
+/-- the model thread performs its next action reading the latest message -/
+def modelStep (r : RState) (t : Nat) : Option (State × Act) :=
+  stepThread r.c r.o r.s t (latest r.s (nextLoc r.c r.s t))
+
+def lookupPtr (ptrs : List (Nat × Nat)) (p : Nat) : Option Nat := (ptrs.find? (·.1 == p)).map (·.2)
+
+/-- rewrite the pointer values of a `tbl` trace line into block counts; the desired value of a CAS
+is taken from the model's own action (the pointer is fresh) -/
+def translate (ptrs : List (Nat × Nat)) (impl model : Act) : Except String Act :=
+  match impl, model with
+  | .ld "tbl" 0 o p, _ =>
+    match lookupPtr ptrs p with
+    | some nb => .ok (.ld "tbl" 0 o nb)
+    | none => .error s!"block table pointer {p} was never installed"
+  | .cas "tbl" 0 w so fo e _ ok obs, .cas _ _ _ _ _ _ d' _ _ =>
+    match lookupPtr ptrs e, lookupPtr ptrs obs with
+    | some e', some obs' => .ok (.cas "tbl" 0 w so fo e' d' ok obs')
+    | _, _ => .error s!"block table pointer {e} / {obs} was never installed"
+  | a, _ => .ok a
+
+def idleCheck (r : RState) (t : Nat) (what : String) : Except String Unit :=
+  if r.s.pc t = .idle then .ok () else .error s!"{what} while the model thread is at {showPc (r.s.pc t)}"
+
+def retCheck (r : RState) (t : Nat) (what : String) (v : Option Nat) : Except String RState :=
+  if r.s.pc t ≠ .idle then .error s!"implementation returned from {what} but the model thread is at {showPc (r.s.pc t)}"
+  else match v with
+    | none => .ok r
+    | some x => if r.s.ret t = some x then .ok r else .error s!"{what} returned {x}, model says {reprStr (r.s.ret t)}"
+
+/-- start of create_accessor / first use of the thread id; `i` = the index the implementation will
+return (found by look-ahead in the trace).  Whether `allocate()` pops or mints is decided when the
+thread's next visible action arrives (`settleAlloc`). -/
+def doCreate (r : RState) (t i : Nat) : Except String RState := do
+  idleCheck r t "call create"
+  if r.c.tls ∧ r.s.tslot t ≠ none then throw "thread already has a thread id in the model"
+  pure { r with s := callCreate r.s t, pend := (t, i) :: r.pend.filter (·.1 != t) }
+
+/-- the free-list pop of `allocate()` is invisible in the trace (C14's business): perform it in the
+model just before the thread's next visible action, unless that action is the minting RMW -/
+def settleAlloc (r : RState) (t : Nat) (minting : Bool) : Except String RState :=
+  if r.s.pc t ≠ .cr0 ∨ minting then .ok r else
+  match r.pend.find? (·.1 == t) with
+  | none => .error "thread is inside allocate() but no returned id is known"
+  | some (_, i) =>
+    match stepThread r.c r.o r.s t (i + 1) with
+    | some (s2, _) => .ok { r with s := s2 }
+    | none => .error s!"implementation reuses id {i} which is not free in the model ({reprStr (r.s.own i)})"
+
+def holderOf (r : RState) (i : Nat) : Option Nat :=
+  match r.s.own i with
+  | .held h => some h
+  | _ => none
+
+def doEvent (r : RState) (t : Nat) (ws : List String) : Except String RState :=
+  match ws with
+  | ["call", "create", i] | ["call", "tlsinit", i] =>
+    match i.toNat? with
+    | some i => doCreate r t i
+    | none => .error "no index for create (trace truncated?)"
+  | ["ret", "create", i] | ["ret", "tlsinit", i] => retCheck r t "create" i.toNat?
+  | ["call", "lock", i] =>
+    match i.toNat? with
+    | none => .error "bad index"
+    | some i => do
+      idleCheck r t "call lock"
+      if r.s.own i ≠ .held t then throw s!"client contract: thread {t} locks accessor {i} it does not hold in the model"
+      if r.c.tls then
+        if r.s.tslot t ≠ some i then throw s!"thread-local lock on slot {i} but the model thread id is {reprStr (r.s.tslot t)}"
+        pure { r with s := callLockT r.s t i }
+      else pure { r with s := callLock r.s t i }
+  | ["call", "unlock", i] =>
+    match i.toNat? with
+    | none => .error "bad index"
+    | some i => do
+      idleCheck r t "call unlock"
+      if r.s.own i ≠ .held t then throw s!"client contract: thread {t} unlocks accessor {i} it does not hold in the model"
+      if r.s.lt i = 0 then throw s!"client contract: unlock of slot {i} without lock"
+      pure { r with s := callUnlock r.s t i }
+  | ["call", "release", i] | ["call", "tlsexit", i] =>
+    match i.toNat? with
+    | none => .error "bad index"
+    | some i => do
+      idleCheck r t "call release"
+      if r.s.own i ≠ .held t then throw s!"client contract: thread {t} releases accessor {i} it does not hold in the model"
+      if r.s.lt i ≠ 0 then throw s!"client contract: release of slot {i} with an open region"
+      match stepThread r.c r.o (callRelease r.s t i) t 0 with
+      | some (s2, _) => pure { r with s := s2 }
+      | none => throw "model cannot push the id"
+  | ["ret", "lock"] => retCheck r t "lock" none
+  | ["ret", "unlock"] => retCheck r t "unlock" none
+  | ["ret", "release"] => retCheck r t "release" none
+  | ["call", "tick"] => do idleCheck r t "call tick"; pure { r with s := callTick r.s t }
+  | ["ret", "tick", e] => retCheck r t "tick" e.toNat?
+  | ["call", "lwm"] => do idleCheck r t "call lwm"; pure { r with s := callScan r.s t }
+  | ["ret", "lwm", m] => retCheck r t "low_water_mark" m.toNat?
+  | ["move", i] =>
+    match i.toNat? with
+    | none => .error "bad index"
+    | some i => do
+      idleCheck r t "move"
+      match holderOf r i with
+      | none => throw s!"accessor {i} moved but nobody holds it in the model"
+      | some h =>
+        if (r.s.pc h).uses i then throw s!"accessor {i} moved while its holder {h} is inside a call on it"
+        if r.s.av i ≤ r.s.cur t then pure { r with s := move r.s i t }
+        else throw s!"client contract: hand-over of accessor {i} from thread {h} to thread {t} is not ordered by release/acquire (receiver view {reprStr (r.s.cur t).ents}, needed {reprStr (r.s.av i).ents})"
+  | ["free", _, e] =>
+    match e.toNat? with
+    | none => .error "bad epoch"
+    | some e =>
+      if r.s.recl e then .ok r
+      else .error s!"implementation reclaims epoch {e} which the model does not mark reclaimable"
+  | _ => .ok r
+
+def stepObs (r0 : RState) (ob : Obs) : Except String RState := do
+  let t := ob.tid
+  let minting := match Act.ofObs ob with
+    | some (.rmw "add" l _ _ _ _) => l == r0.c.cnt.name.1
+    | some (.ev ("call" :: _)) => true
+    | _ => false
+  let r ← settleAlloc r0 t minting
+  match Act.ofObs ob with
+  | none => .error "unknown trace line"
+  | some (.ev ws) => doEvent r t ws
+  | some (.race ws) => .error s!"data race reported by the happens-before monitor: {ws}"
+  | some (.spawn child) =>
+    -- thread creation synchronises: release store by the parent, acquire load by the child
+    let (s1, _) := clientStore r.s t (spawnCell child) .rel 1
+    match clientLoad s1 child (spawnCell child) .acq (latest s1 (.cl (spawnCell child))) with
+    | some (s2, _) => .ok { r with s := s2 }
+    | none => .error "spawn transfer failed"
+  | some .exit =>
+    let (s1, _) := clientStore r.s t (exitCell t) .rel 1
+    .ok { r with s := s1 }
+  | some (.join child) =>
+    match clientLoad r.s t (exitCell child) .acq (latest r.s (.cl (exitCell child))) with
+    | some (s2, _) => .ok { r with s := s2 }
+    | none => .error "join transfer failed"
+  | some a =>
+    if r.s.pc t = .idle then
+      -- client access
+      match a with
+      | .ld "cl" k o v =>
+        match clientLoad r.s t k o (latest r.s (.cl k)) with
+        | some (s2, l) => if l = a then .ok { r with s := s2 } else .error s!"client load: model memory holds {reprStr l}, implementation read {v}"
+        | none => .error "client load not admissible"
+      | .st "cl" k o v => .ok { r with s := (clientStore r.s t k o v).1 }
+      | .xchg "cl" k o _ v =>
+        match clientXchg r.s t k o v with
+        | some (s2, l) => if l = a then .ok { r with s := s2 } else .error s!"client exchange: model {reprStr l}, implementation {reprStr a}"
+        | none => .error "client exchange failed"
+      | .fence o => .ok { r with s := (clientFence r.s t o).1 }
+      | _ => .error s!"implementation performs {reprStr a} but the model thread is idle"
+    else
+      match (if r.s.pc t = .cr0 then stepThread r.c r.o r.s t 0 else modelStep r t) with
+      | none => .error s!"model thread at {showPc (r.s.pc t)} cannot move"
+      | some (s', l) =>
+        match translate r.ptrs a l with
+        | .error e => .error e
+        | .ok a' =>
+          if l = a' then
+            let ptrs := match a, l with
+              | .cas "tbl" 0 _ _ _ _ d true _, .cas _ _ _ _ _ _ d' _ _ => (d, d') :: r.ptrs
+              | _, _ => r.ptrs
+            .ok { r with s := s', ptrs := ptrs }
+          else .error s!"model expects {reprStr l}, implementation did {reprStr a'}"
+
+def finalR (_r : RState) : Except String Unit := .ok ()
+
+/-- look-ahead: give every `call create` / `call tlsinit` the index its matching `ret` reports -/
+def annotate (lines : Array String) : Array String := Id.run do
+  let mut out := lines
+  for i in [0:lines.size] do
+    let ws := words lines[i]!
+    match ws with
+    | [t, "ev", "call", what] =>
+      if what == "create" || what == "tlsinit" then
+        let mut found : Option String := none
+        for j in [i+1:lines.size] do
+          if found.isNone then
+            match words lines[j]! with
+            | [t', "ev", "ret", what', idx] => if t' == t && what' == what then found := some idx
+            | _ => pure ()
+        match found with
+        | some idx => out := out.set! i s!"{t} ev call {what} {idx}"
+        | none => pure ()
+    | _ => pure ()
+  return out
+
+partial def loop (h : IO.FS.Stream) : IO Unit := do
+  let line ← h.getLine
+  if line.isEmpty then return ()
+  match words line with
+  | "RUN" :: hdr =>
+    let rec collect (acc : Array String) : IO (Array String) := do
+      let l ← h.getLine
+      if l.isEmpty || l.trimAscii.toString == "END" then return acc
+      collect (acc.push l)
+    let ls ← collect #[]
+    let (n, err, s) := replay stepObs (initR hdr) (annotate ls).toList
+    match err with
+    | some e => IO.println s!"diverge {e}"
+    | none =>
+      match finalR s with
+      | .ok _ => IO.println s!"ok {n}"
+      | .error e => IO.println s!"diverge at end of trace: {e}"
+    loop h
+  | _ => loop h
+
+def main : IO Unit := do
+  loop (← IO.getStdin)
